@@ -1400,6 +1400,91 @@ def rule_O5(ctx, rule: str = "O5") -> None:
 
 
 # ---------------------------------------------------------------------------
+# O8 a member is registered in the oneof tables exactly when it declares a group
+
+
+def rule_O8(ctx, rule: str = "O8") -> None:
+    """membership in the per-class oneof tables depends on the field's `group` alone: every condition under which
+    ProtoClassMetadata.__init__ enters a field into oneof_group_by_field / oneof_field_by_group tests nothing but the group
+    (the pydantic flavour declares every member of a real oneof optional=True as well - such members must not fall out)"""
+    mod = ctx.repo.mod(M_INIT)
+    init = mod.func("ProtoClassMetadata.__init__")
+    ctx.analysed("ProtoClassMetadata.__init__")
+    conds: List[ast.AST] = []
+    n_tables = 0
+
+    def parents_of(target: ast.AST) -> List[ast.AST]:
+        out = []
+        def rec(node, stack):
+            for ch in ast.iter_child_nodes(node):
+                if ch is target:
+                    out.extend(stack + [node])
+                    return True
+                if rec(ch, stack + [node]):
+                    return True
+            return False
+        rec(init, [])
+        return out
+
+    def collect(name: str, depth: int = 0) -> None:
+        if depth > 3:
+            return
+        for n in ast.walk(init):
+            # T[k] = v / T.setdefault(..) / T[k].add(..) under `if` tests
+            hit = None
+            if isinstance(n, ast.Assign) and any(isinstance(t, ast.Subscript) and isinstance(t.value, ast.Name) and t.value.id == name for t in n.targets):
+                hit = n
+            elif isinstance(n, ast.Expr) and isinstance(n.value, ast.Call) and any(isinstance(x, ast.Name) and x.id == name for x in ast.walk(n.value.func)):
+                hit = n
+            if hit is not None:
+                for par in parents_of(hit):
+                    if isinstance(par, ast.If) and hit in [x for b in par.body for x in ast.walk(b)]:
+                        conds.append(par.test)
+                    elif isinstance(par, ast.If):
+                        conds.append(ast.UnaryOp(ast.Not(), par.test))
+            # T = {.. for .. if C} / [.. for .. if C], possibly over another local that was filtered
+            if isinstance(n, (ast.Assign, ast.AnnAssign)) and getattr(n, "value", None) is not None and any(
+                    isinstance(t, ast.Name) and t.id == name for t in (n.targets if isinstance(n, ast.Assign) else [n.target])):
+                for comp in [x for x in ast.walk(n.value) if isinstance(x, (ast.DictComp, ast.ListComp, ast.SetComp, ast.GeneratorExp))]:
+                    for g in comp.generators:
+                        conds.extend(g.ifs)
+                        if isinstance(g.iter, ast.Name):
+                            collect(g.iter.id, depth + 1)
+                        elif isinstance(g.iter, ast.Call) and isinstance(g.iter.func, ast.Attribute) and isinstance(g.iter.func.value, ast.Name):
+                            collect(g.iter.func.value.id, depth + 1)
+
+    for attr in ("oneof_group_by_field", "oneof_field_by_group"):
+        for n in ast.walk(init):
+            if isinstance(n, ast.Assign) and any(isinstance(t, ast.Attribute) and t.attr == attr for t in n.targets):
+                n_tables += 1
+                if isinstance(n.value, ast.Name):
+                    collect(n.value.id)
+                else:
+                    for comp in [x for x in ast.walk(n.value) if isinstance(x, (ast.DictComp, ast.ListComp, ast.SetComp, ast.GeneratorExp))]:
+                        for g in comp.generators:
+                            conds.extend(g.ifs)
+                            if isinstance(g.iter, ast.Name):
+                                collect(g.iter.id)
+                            elif isinstance(g.iter, ast.Call) and isinstance(g.iter.func, ast.Attribute) and isinstance(g.iter.func.value, ast.Name):
+                                collect(g.iter.func.value.id)
+    ctx.count(len(conds))
+    name = "metadata:oneof-membership-by-group-only"
+    if n_tables < 2:
+        ctx.inconclusive(rule, name, "the oneof tables are not assigned in ProtoClassMetadata.__init__", mod.loc(init))
+        return
+    bad = None
+    for c in conds:
+        attrs = {x.attr for x in ast.walk(c) if isinstance(x, ast.Attribute)}
+        if attrs & {"optional", "proto_type", "wraps", "number", "map_types"}:
+            bad = bad or c
+    if bad is not None:
+        ctx.refuted(rule, name, ast.unparse(bad)[:80], mod.loc(bad), f"a field enters the oneof tables only under `{ast.unparse(bad)}`: membership must follow the declared group alone - the pydantic "
+                    "flavour of the plugin declares the members of a real oneof with optional=True too, such members are then neither selected nor reset by assignments "
+                    "and which_one_of / the encoding report several members", "pydantic-style members: a = field(1, group='g', optional=True), b = field(2, group='g', optional=True); m.a = 1; m.b = 2")
+    else:
+        ctx.proved(rule, name, mod.loc(init), f"{len(conds)} conditions, each about the group only")
+
+
 # O7 tables keyed by group are built from all members of the group
 
 
